@@ -58,6 +58,8 @@ func runC18(c *Ctx) {
 		return strings.Join(t, ".")
 	}
 	shapes := []string{"foo.a*b.>", "foo.a*b", "*foo.bar", "x>y.bar.*", "a", "a.b", "a.b.c", "*", ">", "*.a", "a.*", "a.>", "a.*.b", "a.b.*.>", "*.*", "_", "_.a", "a.b.*", "foo.*.bar.>"}
+	// characters that do not show (zero-width space, no-break space, byte-order mark, soft hyphen) are characters
+	shapes = append(shapes, "orders\u200b.eu.*", "a\u00a0b.c.>", "\ufeffx.y", "so\u00adft.*", "x.\u200b.*", "tab\tbed.*")
 	// deep subjects: many literal tokens before the first wildcard (and none at all), several tails on the same prefix
 	for _, depth := range []int{7, 8, 9, 15, 16, 17, 20, 31, 32, 33, 64, 100} {
 		var lit []string
